@@ -192,6 +192,9 @@ func checkC04(c *core.Ctx, l *core.Ledger) {
 	}
 
 	// FULL-READ
+	checkFailCauses(c, l)
+	// decoded binaries and strings must not be views of memory the (pooled) reader keeps and reuses
+	checkFreshResults(c, l, "FRESH-RESULT", []string{"protocol/binary"})
 	checkStreamReaderFullRead(c, l)
 	checkNoRawRead(c, l, "FULL-READ", []string{"protocol/binary"})
 	checkReaderAdapters(c, l, "READER-ADAPTER", []string{"protocol/binary", "protocol", "envelope", "internal/envelope"})
@@ -358,4 +361,92 @@ func checkStreamReaderFullRead(c *core.Ctx, l *core.Ledger) {
 	}
 	l.Floor("FULL-READ", 3)
 	_ = n
+}
+
+// failCauses: for each function of the decode layer, the kinds of conditions
+// under which it *originates* an error (as opposed to passing one on).
+func failCauses(c *core.Ctx, recvs ...string) map[string][]string {
+	want := map[string]bool{}
+	for _, r := range recvs {
+		want[r] = true
+	}
+	out := map[string][]string{}
+	for _, f := range c.AllFuncs("protocol/binary") {
+		if c.IsTestFile(f.Pos()) || !want[recvNamed(f)] || len(f.Blocks) == 0 {
+			continue
+		}
+		core.Instrs(f, func(in ssa.Instruction) {
+			call, ok := in.(*ssa.Call)
+			if !ok {
+				return
+			}
+			o := core.CalleeObj(call)
+			if o == nil || o.Pkg() == nil {
+				return
+			}
+			full := o.Pkg().Path() + "." + o.Name()
+			if !(strings.HasSuffix(full, "/protocol/binary.decodeErrorf") || full == "fmt.Errorf" || full == "errors.New" || strings.HasSuffix(full, "/protocol/binary.errUnexpectedEnvelopeType")) {
+				return
+			}
+			conds := nestingConds(in.Block())
+			class := "unconditional"
+			allTypeCmp := len(conds) > 0
+			for _, s := range conds {
+				t := strings.TrimPrefix(s, "!")
+				// conditions on the wire type parameter only (switch arms, the fixed-width test)
+				if !strings.Contains(t, "$1") || strings.Contains(t, "$0") {
+					allTypeCmp = false
+				}
+			}
+			switch {
+			case len(conds) > 0 && strings.Contains(conds[0], "<c:0)") && !strings.HasPrefix(conds[0], "!"):
+				class = "negative-length"
+			case allTypeCmp:
+				class = "unknown-type"
+			case len(conds) > 0 && strings.Contains(conds[0], "c:4294901760"):
+				class = "envelope-version"
+			case len(conds) > 0 && strings.Contains(conds[0], ".Type!="):
+				class = "envelope-type"
+			case len(conds) > 0 && (strings.Contains(conds[0], "ReadInt8") || strings.Contains(conds[0], "readByte") || strings.Contains(conds[0], ".buffer[")):
+				class = "byte-domain"
+			case len(conds) > 0:
+				class = "other:" + conds[0]
+			}
+			out[class] = append(out[class], c.Rel(in.Pos()))
+		})
+	}
+	return out
+}
+
+// checkFailCauses: the streaming reader and the random-access reader originate
+// decode errors for the same kinds of reasons. A cause that exists on one path
+// only (for instance a nesting-depth limit in Skip) makes that path reject
+// inputs the other accepts.
+func checkFailCauses(c *core.Ctx, l *core.Ledger) {
+	stream := failCauses(c, "StreamReader")
+	value := failCauses(c, "reader", "Reader")
+	// the random-access reader delegates primitives to the stream reader: its own causes must be a subset,
+	// and neither side may have a cause class outside the protocol's own (length sign, type domain, byte domain, envelope)
+	known := map[string]bool{"negative-length": true, "unknown-type": true, "envelope-version": true, "envelope-type": true, "byte-domain": true}
+	var classes []string
+	for k := range stream {
+		classes = append(classes, "stream:"+k)
+	}
+	for k := range value {
+		classes = append(classes, "value:"+k)
+	}
+	sort.Strings(classes)
+	for _, sk := range classes {
+		side, k := sk[:strings.Index(sk, ":")], sk[strings.Index(sk, ":")+1:]
+		sites := stream[k]
+		other := value
+		if side == "value" {
+			sites = value[k]
+			other = stream
+		}
+		_, both := other[k]
+		ok := known[k] || both
+		l.Check(ok, "FAIL-CAUSES", sk, sites[0], fmt.Sprintf("decode errors of this kind are part of the protocol (%d site(s))", len(sites)), "the "+side+" path originates a decode error under a condition the other path does not have ("+k+"): an input accepted by one path is rejected by the other")
+	}
+	l.Floor("FAIL-CAUSES", 3)
 }
